@@ -352,6 +352,17 @@ def check(pid, tier, cfg, replay=None):
     finally:
         pass
 
+    # 3b. thorough tier: independent re-check of the compiled theorems (and everything they depend on) with coqchk
+    coqchk_report = None
+    if tier == "thorough" and proof_ok:
+        rc_c, out_c, dt_c = sh(["coqchk", "-silent", "-o", "-Q", ".", "Gluon", "Gluon.Props." + pid], cwd=COQ, timeout=3000)
+        log.append("coqchk Gluon.Props.%s rc=%d %.1fs" % (pid, rc_c, dt_c))
+        m_ax = re.search(r"\* Axioms:(.*?)\n\s*\n\* Constants", out_c, flags=re.S)
+        coqchk_report = {"rc": rc_c, "axioms": " ".join((m_ax.group(1) if m_ax else "?").split()), "tail": out_c[-600:]}
+        if rc_c != 0:
+            proof_ok = False
+            proof_msg = "coqchk failed: " + out_c[-2000:]
+
     # 4. decide
     failures = (res or {}).get("failures", [])
     seen = set()
@@ -429,6 +440,7 @@ def check(pid, tier, cfg, replay=None):
         "oracle_failures": len(failures),
         "known_findings_matched": known_lines,
         "harness_notes": (res or {}).get("notes", []),
+        "coqchk": coqchk_report,
         "log": log,
     }
     ev = {
